@@ -7,6 +7,7 @@ when out of range, array_from_iter with MaybeUninit slots, Channels iterator, mo
 Tie: the executable definitions (Frame/FrameRun.v) evaluated by coqc on the same cases as the crates,
 through the public traits, 232 [S; N] monomorphisations + 14 bare-sample impls, debug and release."""
 import json, os, struct, sys, time
+from concurrent.futures import ThreadPoolExecutor
 import framework as F
 import floatbase
 sys.path.insert(0, os.path.join(F.VERIF, "translate"))
@@ -16,11 +17,17 @@ import sampletable2coq    # noqa: E402
 PROP = "C03"
 META = dict(
     technique="Coq proof over generated conversions + generated companion table + hand model of dasp_frame; coqc-evaluated model vs crates correspondence (debug + release)",
-    text="translate/sampletable2coq.py reads the impl_sample! table (Signed, Float, EQUILIBRIUM per format) and pins the text of Sample::{to_signed_sample,to_float_sample,add_amp,mul_amp}; Sample/SampleOps.v composes them from the conversions generated from conv.rs (C01) and the I24/I48 operator model (C15). Coq 8.16.1 proves: the table facts; add_amp s 0 = s (all 14 formats, both profiles); mul_amp s 0.0 = equilibrium and mul_amp s 1.0 = s exactly for the formats that fit the float companion's mantissa (8/16/24-bit with f32, 48-bit with f64), with explicit counterexamples for the 32/64-bit formats; add_amp = re-centred integer addition, Ok iff the signed sum is representable; for EVERY channel count N and every frame: Frame::map/zip_map/from_fn through the unchecked indexing never hit UB and equal the in-order per-channel traversal (call order included), from_samples returns Some(firstn N) iff the iterator has N items, consumes exactly min(N, len) items and never reads an unwritten slot, every amplitude method is the per-channel sample method in channel order, channels()/channel(i) enumerate the frame, and a bare sample behaves as the 1-channel frame. The model is tied to the crates by running it inside coqc on the same cases as the real code (public trait methods, 232 array monomorphisations N=1..32 + 14 mono impls, call-order-recording FnMut closures, counting iterators, panics observed).",
+    text="translate/sampletable2coq.py reads the impl_sample! table (Signed, Float, EQUILIBRIUM per format) and pins the text of Sample::{to_signed_sample,to_float_sample,add_amp,mul_amp}; Sample/SampleOps.v composes them from the conversions generated from conv.rs (C01) and the I24/I48 operator model (C15). Coq 8.16.1 proves: the table facts; add_amp s 0 = s (all 14 formats, both profiles); mul_amp s 0.0 = equilibrium and mul_amp s 1.0 = s exactly for the formats that fit the float companion's mantissa (8/16/24-bit with f32, 48-bit with f64), with explicit counterexamples for the 32/64-bit formats; add_amp = re-centred integer addition, Ok iff the signed sum is representable; for EVERY channel count N and every frame: Frame::map/zip_map/from_fn through the unchecked indexing never hit UB and equal the in-order per-channel traversal (call order included), from_samples returns Some(firstn N) iff the iterator has N items, consumes exactly min(N, len) items and never reads an unwritten slot, every amplitude method is the per-channel sample method in channel order, channels()/channel(i) enumerate the frame, any script of iterator steps (next, nth, skip, step_by, count, last, len) on one channels() iterator behaves as the list iterator over the channels (provided methods of core::iter modelled from next()), and a bare sample behaves as the 1-channel frame. The model is tied to the crates by running it inside coqc on the same cases as the real code (public trait methods, 232 array monomorphisations N=1..32 + 14 mono impls, call-order-recording FnMut closures, counting iterators, panics observed).",
     note="Trusted: Coq kernel; translate/conv2coq.py + translate/sampletable2coq.py; Sample/Rint.v, Sample/TypesModel.v, Base/Float.v (Flocq) as the meaning of Rust's integer / I24 / IEEE operators; core::array::from_fn and core::array::map call their closure in index order (std documentation); harness + generators. Several frame theorems are near-definitional in a functional model: their content is the absence of UB in the unchecked-index code and the pinned correspondence. Axioms: the standard real-number axioms through Flocq for the float identities only.",
     design="6/C03")
 HEADER = "From Dasp Require Import Sample.ConvRun Frame.FrameRun.\nRequire Import Uint63."
 CHECK = "check"
+# compact transport (Frame/FrameRunU.v): one list of primitive 63-bit integers per (case, observations) pair
+HEADER_U = "From Dasp Require Import Frame.FrameRunU.\nRequire Import Uint63."
+CHECK_U = "checku"
+OPCODE = {"sadd": 1, "smul": 2, "ssig": 3, "sflt": 4, "seq": 5, "map": 6, "zip": 7, "fromfn": 8, "fromsamples": 9,
+          "channels": 10, "channel": 11, "offset": 12, "scale": 13, "addf": 14, "mulf": 15, "tosigned": 16, "tofloat": 17,
+          "equil": 18, "mapba": 19, "mapab": 20, "addfa": 21, "iter": 22}
 
 NAMES = ["i8", "i16", "I24", "i32", "I48", "i64", "u8", "u16", "U24", "u32", "U48", "u64", "f32", "f64"]
 CODE = {n: i for i, n in enumerate(NAMES)}
@@ -82,6 +89,38 @@ def zt(n):
 
 def zl(xs):
     return "[" + "; ".join(zt(x) for x in xs) + "]"
+
+
+def enc_z(out, v):
+    """value encoding of Frame/FrameRunU.v unz"""
+    v = int(v)
+    a = -v if v < 0 else v
+    if a < (1 << 60):
+        out.append(4 * a + (1 if v < 0 else 0))
+    else:
+        out.append(4 * (a >> 32) + (3 if v < 0 else 2))
+        out.append(a & 0xffffffff)
+
+
+def enc_term(it, obs_line):
+    """the (case, observations) pair as one uint63 list term"""
+    out = []
+    for v in (it["mode"], CODE[it["fmt"]], it["n"], it["bare"], len(it["ops"])):
+        enc_z(out, v)
+    for o in it["ops"]:
+        enc_z(out, OPCODE[o[0]])
+        enc_z(out, len(o) - 1)
+        for l in o[1:]:
+            enc_z(out, len(l))
+            for v in l:
+                enc_z(out, v)
+    obs = F.norm_obs_line(obs_line)
+    enc_z(out, len(obs))
+    for l in obs:
+        enc_z(out, len(l))
+        for v in l:
+            enc_z(out, v)
+    return "([" + ";".join(map(str, out)) + "]%uint63)"
 
 
 # ---------------------------------------------------------------------------
@@ -192,6 +231,7 @@ COQ_OP = {
     "tosigned": lambda a: f"ZToSigned {zl(a[0])}", "tofloat": lambda a: f"ZToFloat {zl(a[0])}", "equil": lambda a: "ZEquilF",
     "mapba": lambda a: f"ZMapBA {zl(a[0])} {zl(a[1])}", "mapab": lambda a: f"ZMapAB {zl(a[0])} {zl(a[1])}",
     "addfa": lambda a: f"ZAddFA {zl(a[0])} {zl(a[1])}",
+    "iter": lambda a: f"ZIter {zt(a[0][0])} {zl(a[1])} {zl(a[2])}",
 }
 
 
@@ -228,6 +268,30 @@ def sample_ops(r, n, count):
     return ops
 
 
+def iter_scripts(r, N, kind):
+    """scripts (flat triples code a b) on ONE iterator: structured ones that apply nth / skip / step_by / count /
+    last / len to a PARTLY CONSUMED (and to an exhausted) iterator, plus random ones"""
+    back = kind != 0
+    k1, k2 = r.below(N + 1), r.below(N + 2)
+    sc = [
+        [0, 0, 0, 0, 0, 0, 1, 0, 0, 6, 0, 0, 1, 0, 0],                       # next, next, nth(0), len, nth(0)
+        [0, 0, 0, 2, k1 % 3, 0, 6, 0, 0, 3, 1 + k2 % 3, N + 1, 6, 0, 0],     # next, skip(k).next(), len, step_by, len
+        [1, k1, 0, 1, 0, 0, 2, 0, 0, 4, 0, 0, 1, 0, 0, 0, 0, 0, 6, 0, 0],    # nth(k), nth(0), skip(0).next(), count, nth(0), next, len
+        [0, 0, 0, 3, 2, max(1, N // 2), 5, 0, 0, 1, 0, 0],                   # next, step_by(2).take, last, nth(0) on exhausted
+    ]
+    if back:
+        sc.append([7, 0, 0, 0, 0, 0, 1, k1 % 2, 0, 6, 0, 0, 8, 2, 0, 7, 0, 0, 6, 0, 0])   # next_back, next, nth, len, rev.take(2), next_back, len
+    for _ in range(2):
+        steps = []
+        for _ in range(r.range(3, 7)):
+            c = r.choice([0, 0, 1, 1, 2, 2, 3, 4, 5, 6, 6] + ([7, 7, 8] if back else []))
+            a = r.range(1, 4) if c == 3 else r.below(N + 2) if c in (1, 2) else r.below(N + 1) if c == 8 else 0
+            b = r.below(N + 2) if c == 3 else 0
+            steps += [c, a, b]
+        sc.append(steps)
+    return sc
+
+
 def frame_ops(r, n, N, bare, full_short):
     sg, fl = SIGNED_OF[n], float_of(n)
     fr = frame(r, n, N)
@@ -238,6 +302,9 @@ def frame_ops(r, n, N, bare, full_short):
     for k in ks:
         ops.append(["fromsamples", [val(r, n) for _ in range(k)]])
     ops.append(["channels", fr])
+    for kind in (0, 1, 2):
+        for script in iter_scripts(r, N, kind):
+            ops.append(["iter", [kind], fr, script])
     for i in sorted({0, N - 1, N, N + 5, r.below(N)}):
         ops.append(["channel", fr, [i]])
     ops.append(["offset", fr, [amp_for(r, n, fr, True)]])
@@ -298,6 +365,12 @@ def nontrivial_ops(it, obs_parts):
         elif name in ("map", "zip", "addf", "mulf", "tosigned", "tofloat", "channels", "mapba", "mapab", "addfa"):
             if N >= 2 and len(set(o[1])) > 1:
                 out.append(i)
+        elif name == "iter":
+            # a position-dependent step (nth / skip / step_by / count / last / len / next_back) applied after the
+            # iterator has already been advanced by an earlier step of the same script
+            sc = o[3]
+            if len(sc) > 3 and any(sc[j] != 0 for j in range(3, len(sc), 3)):
+                out.append(i)
         elif name == "fromfn":
             if N >= 2 and len(set(o[1])) > 1:
                 out.append(i)
@@ -338,6 +411,41 @@ def build_bins():
     return out, ""
 
 
+PREBUILD = ["theories/Frame/FrameRunU.vo", "theories/Frame/FrameExamples.vo", "theories/Frame/ChanIterProofs.vo",
+            "theories/Frame/FrameOpsProofs.vo", "theories/Sample/SampleOpsFloatProofs.vo", "theories/Base/FloatRun.vo"]
+
+
+def correspond_u(bins, items, tag):
+    """both profiles' binaries, then ONE balanced coqc batch over the uint63-encoded (case, observation) pairs.
+    Returns (observation lines, bad indices, errors)."""
+    outl, errors = [None] * len(items), []
+    for mode in (0, 1):
+        idx = [k for k, it in enumerate(items) if it["mode"] == mode]
+        if not idx:
+            continue
+        rc, o, err = F.run_bin_parallel(bins[mode], [items[k]["line"] for k in idx])
+        if rc != 0 or len(o) != len(idx):
+            return outl, [], [("harness", f"profile {mode}: rc={rc} lines={len(o)}/{len(idx)} stderr={err[-1500:]}")]
+        for k, x in zip(idx, o):
+            outl[k] = x
+    terms = []
+    for it, o in zip(items, outl):
+        try:
+            terms.append(enc_term(it, o))
+        except ValueError:
+            return outl, [], [("harness", f"unparsable observation line {o[:200]!r} for {it['line'][:200]!r}")]
+    # balance the shards: deal the cases, largest first, over the shards (coq_check_cases cuts contiguous chunks)
+    nsh = max(F.NCPU, (len(terms) + 149) // 150)
+    order = sorted(range(len(terms)), key=lambda k: -len(terms[k]))
+    buckets = [[] for _ in range(nsh)]
+    for j, k in enumerate(order):
+        r = j % (2 * nsh)
+        buckets[r if r < nsh else 2 * nsh - 1 - r].append(k)
+    perm = [k for b in buckets for k in b]
+    bad, cerrs = F.coq_check_cases(tag, HEADER_U, CHECK_U, [terms[k] for k in perm])
+    return outl, sorted(perm[b] for b in bad), errors + cerrs
+
+
 def main(rep, tier, seed):
     rng = F.Rng(seed)
     times = {}
@@ -347,16 +455,26 @@ def main(rep, tier, seed):
     if terr:
         rep.violation("translate", {"kind": "model cannot be regenerated: the translators do not recognise the current dasp_sample sources (the committed generated model is used for the rest of this run)",
                                     "error": terr}, no_input=True)
+    # everything props/C03.v depends on is built first; then props/C03.vo itself (25 s of Print Assumptions over the
+    # C01 closure) is compiled and audited WHILE the harness runs and the model is evaluated
     t = time.time()
-    info = F.standard_proof_phase(rep, PROP, allowed_axioms=F.AX_REALS)
-    info["regenerated"] = changed
-    times["coq_s"] = info.get("coq_s")
+    F.coq_make(PREBUILD)
+    times["prebuild_s"] = round(time.time() - t, 1)
+    pool = ThreadPoolExecutor(max_workers=1)
+    proof = pool.submit(F.standard_proof_phase, rep, PROP, F.AX_REALS)
+
+    def proof_info():
+        info = proof.result()
+        info["regenerated"] = changed
+        times["coq_s"] = info.get("coq_s")
+        return info
+
     t = time.time()
     bins, blog = build_bins()
     times["harness_build_s"] = round(time.time() - t, 1)
     if bins is None:
         rep.violation("harness_build", {"kind": "harness does not build against /repo", "log": blog[-4000:]}, no_input=True)
-        return finish(rep, info, {}, times, {})
+        return finish(rep, proof_info(), {}, times, {})
     t = time.time()
     fb_n, fb_bad, fb_err = floatbase.run(rng.fork("floatbase"), 600 if tier == "quick" else 4000)
     times["floatbase_s"] = round(time.time() - t, 1)
@@ -369,15 +487,13 @@ def main(rep, tier, seed):
     items = load_corpus() + gen_cases(rng.fork("cases"), tier)
     stats = dict(cases=len(items), evaluations=0, nontrivial=0, panics=0, hist={}, bad=0, samples=[], floatbase=fb)
     seen_nt = set()
-    for mode in (0, 1):
-        sub = [it for it in items if it["mode"] == mode]
-        outl, bad, errors = F.correspond(bins[mode], sub, HEADER, CHECK, f"c03_{'dbg' if mode == 0 else 'rel'}")
-        for name, msg in errors:
-            rep.violation(f"correspondence_error_{mode}_" + name.replace("/", "_"),
-                          {"kind": "correspondence could not be evaluated", "where": name, "log": msg}, no_input=True)
-        if errors:
-            continue
-        for it, o in zip(sub, outl):
+    outl, bad, errors = correspond_u(bins, items, "c03")
+    for name, msg in errors:
+        rep.violation("correspondence_error_" + name.replace("/", "_"),
+                      {"kind": "correspondence could not be evaluated", "where": name, "log": msg}, no_input=True)
+    if not errors:
+        for it, o in zip(items, outl):
+            mode = it["mode"]
             parts = o.split(";")
             # tested-only clause (no theorem): scaling a 32/64-bit sample by 1.0 stays in range and within
             # 2^(bits - prec) of the sample; exact for the narrower formats (also proved: c03_mul_one_exact)
@@ -408,12 +524,16 @@ def main(rep, tier, seed):
                 if op[0] == "fromsamples":
                     key = "fromsamples:" + ("short" if len(op[1]) < it["n"] else "exact" if len(op[1]) == it["n"] else "long")
                     h[key] = h.get(key, 0) + 1
-        stats["bad"] += len(bad)
-        if sub:
-            pick = sub[len(sub) // 3]
-            stats["samples"].append(f"[{'debug' if mode == 0 else 'release'}] {pick['line'][:200]} -> {outl[sub.index(pick)][:200]}")
+                if op[0] == "iter":
+                    key = "iter:" + ("channels" if op[1][0] == 0 else "channels_ref" if op[1][0] == 1 else "channels_mut")
+                    h[key] = h.get(key, 0) + 1
+                    h["iter_steps"] = h.get("iter_steps", 0) + len(op[3]) // 3
+        stats["bad"] = len(bad)
+        for k in (len(items) // 3, 2 * len(items) // 3):
+            stats["samples"].append(f"[{'debug' if items[k]['mode'] == 0 else 'release'}] {items[k]['line'][:200]} -> {outl[k][:200]}")
         for idx in bad[:3]:
-            it = sub[idx]
+            it = items[idx]
+            mode = it["mode"]
 
             def fails(c, mode=mode):
                 o, b, e = F.correspond(bins[mode], [c], HEADER, CHECK, "c03_shrink")
@@ -430,7 +550,7 @@ def main(rep, tier, seed):
                 "original_case_index": idx, "replay": "./check.py C03 --replay <this file>"})
     stats["nontrivial"] = len(seen_nt)
     times["correspondence_s"] = round(time.time() - t, 1)
-    return finish(rep, info, stats, times, fb)
+    return finish(rep, proof_info(), stats, times, fb)
 
 
 def finish(rep, info, stats, times, fb):
@@ -448,7 +568,7 @@ def finish(rep, info, stats, times, fb):
         "regenerated_files": info.get("regenerated", []),
         "evaluations": stats.get("evaluations", 0), "cases": stats.get("cases", 0),
         "distinct_nontrivial": stats.get("nontrivial", 0),
-        "rule": "every op of every case is one evaluation, compared exactly (values, logs of closure calls, iterator call counts, panics). Cases: Sample::{add_amp,mul_amp,to_signed_sample,to_float_sample,EQUILIBRIUM} on boundary-structured + random values of all 14 formats; every Frame method on [S; N] for N=1..32 over u8,i16,I24,u32,f32,f64 and N in {1,2,3,8,32} over the other 8 formats, and on every bare sample type; from_samples with every iterator length 0..N+2; both build profiles. non-trivial = an offset/scale/add_amp/mul_amp with a non-zero amplitude on an unsigned or custom-width (24/48-bit) format, or a frame op on N >= 2 channels with distinct values, or a from_samples with fewer than N items (distinct (format, N, op, arguments))",
+        "rule": "every op of every case is one evaluation, compared exactly (values, logs of closure calls, iterator call counts, panics). Cases: Sample::{add_amp,mul_amp,to_signed_sample,to_float_sample,EQUILIBRIUM} on boundary-structured + random values of all 14 formats; every Frame method on [S; N] for N=1..32 over u8,i16,I24,u32,f32,f64 and N in {1,2,3,8,32} over the other 8 formats, and on every bare sample type; from_samples with every iterator length 0..N+2; iterator-adaptor scripts (structured: nth/skip/step_by/count/last/len on a partly consumed and on an exhausted iterator, next_back/rev on the slice-backed ones; plus random scripts) on ONE channels() / channels_ref() / channels_mut() instance for every (format, N) and every bare sample; both build profiles. non-trivial = an offset/scale/add_amp/mul_amp with a non-zero amplitude on an unsigned or custom-width (24/48-bit) format, or a frame op on N >= 2 channels with distinct values, or a from_samples with fewer than N items, or an iterator script with a position-dependent step after the iterator was advanced (distinct (format, N, op, arguments))",
         "samples": stats.get("samples", []), "input_distribution": dict(stats.get("hist", {}), panic_observations=stats.get("panics", 0)),
         "disagreements": stats.get("bad", 0), "scale_by_one_bound_checked": stats.get("scale_by_one_checked", 0), "timing": times, "float_model_validation": fb,
         "explanation": "theorems: identities of add_amp/mul_amp per format, re-centring, per-channel / in-order / no-UB theorems for every N; tie: translator for the companion table and conversions + the executable model run by coqc on the same cases as the crates through the public traits, all observations compared exactly",
